@@ -2,6 +2,7 @@ import XzVerif.Proofs.Lzma2RoundTrip
 import XzVerif.Proofs.Chunk
 import XzVerif.Proofs.Writer2
 import XzVerif.Proofs.HashTable
+import XzVerif.Proofs.BinTree
 /-
   C08 — LZMA2 writer: lossless for any call history; Flush yields a decodable prefix.
 
@@ -45,6 +46,12 @@ import XzVerif.Proofs.HashTable
     the sink plus end marker decodes to exactly the data written so far.
   The same theorems are available for every match finder that satisfies `MatcherInv` (`C08_*_I`), e.g. any
   candidate search combined with the ring-level verification of Model/Select.lean.
+
+  The BinaryTree match finder is modelled the same way (`Model/BinTree.lean`: tree insertion/removal with parent
+  pointers, search, predecessor/successor iterators, distances; tied byte for byte through the computed stream and
+  through the candidate lists) and proved self-synchronising and applicable: `C08_bintree_never_fails`,
+  `C08_bintree_close_decodes`, `C08_bintree_flush_prefix_decodes`.  With both match finders modelled, every
+  configuration `Writer2Config.Verify` accepts is covered without a hypothesis about the match finder.
 
   **Not proved** (hence still `partial`): that HashTable4 and BinaryTree satisfy `MatcherOk` (their
   candidate verification via `buffer.matchLen` is proved sound at ring level in Proofs/Ring.lean; the
@@ -151,6 +158,32 @@ theorem C08_hashtable4_flush_prefix_decodes (strict : Bool) (c : Cfg) (hc : CfgO
       r.h.out = payload calls ∧ r.pos = w.out.size + 1 :=
   W2.flush_prefix_decodes_I strict c hc HT.HT4 (HT.Synced c) (HT.ht4_matcherInv c) _ (HT.synced_new c) calls hnc
     (C08_hashtable4_never_fails c hc calls hnc .flush)
+
+/-! ### unconditional for the BinaryTree model (Model/BinTree.lean: tree maintenance + iterators + selection) -/
+
+open W2 in
+theorem C08_bintree_never_fails (c : Cfg) (hc : CfgOk c) (calls : List Call)
+    (hnc : ∀ call ∈ calls, ¬ (call matches .close)) (call : Call) :
+    allOk (run c BT.BT4 (init c (BT.St.new c.dictCap c.bufSize)) (calls ++ [call])).2 :=
+  W2.no_error_of_margin_I (by decide) c hc BT.BT4 (BT.Synced c) (BT.bt4_matcherInv c) _ (BT.synced_new c) calls hnc call
+
+open W2 in
+theorem C08_bintree_close_decodes (strict : Bool) (c : Cfg) (hc : CfgOk c) (calls : List Call)
+    (hnc : ∀ call ∈ calls, ¬ (call matches .close)) :
+    let w := (run c BT.BT4 (init c (BT.St.new c.dictCap c.bufSize)) (calls ++ [.close])).1
+    ∃ r, decode strict c.dictCap w.out 0 ByteArray.empty = (r, .eof) ∧
+      r.h.out = payload calls ∧ r.pos = w.out.size ∧ r.seq = .ended :=
+  W2.close_decodes_I strict c hc BT.BT4 (BT.Synced c) (BT.bt4_matcherInv c) _ (BT.synced_new c) calls hnc
+    (C08_bintree_never_fails c hc calls hnc .close)
+
+open W2 in
+theorem C08_bintree_flush_prefix_decodes (strict : Bool) (c : Cfg) (hc : CfgOk c) (calls : List Call)
+    (hnc : ∀ call ∈ calls, ¬ (call matches .close)) :
+    let w := (run c BT.BT4 (init c (BT.St.new c.dictCap c.bufSize)) (calls ++ [.flush])).1
+    ∃ r, decode strict c.dictCap (w.out.push 0) 0 ByteArray.empty = (r, .eof) ∧
+      r.h.out = payload calls ∧ r.pos = w.out.size + 1 :=
+  W2.flush_prefix_decodes_I strict c hc BT.BT4 (BT.Synced c) (BT.bt4_matcherInv c) _ (BT.synced_new c) calls hnc
+    (C08_bintree_never_fails c hc calls hnc .flush)
 
 /-- the same three statements for every self-synchronising match finder -/
 theorem C08_close_decodes_I {σ : Type} (strict : Bool) (c : W2.Cfg) (hc : W2.CfgOk c) (M : W2.Matcher σ)
